@@ -128,6 +128,13 @@ def main(argv):
             thms += vlib.theorems_in(f)
     extra_ob = getattr(mod, "extra_obligations", None)
     extra = extra_ob(notes) if extra_ob else {"obligations": [], "discharged": [], "problems": []}
+    if ok_props and tier != "quick":
+        # thorough tier: the toolchain's independent re-checker replays the compiled declarations of the theorem modules
+        for m_ in prop_modules:
+            rc_, out_, dt_ = vlib.run(["lake", "env", "leanchecker", m_], cwd=vlib.LEAN, timeout=3000)
+            notes.setdefault("leanchecker", {})[m_] = {"rc": rc_, "seconds": round(dt_, 1)}
+            if rc_ != 0:
+                extra = dict(extra); extra["problems"] = list(extra["problems"]) + [f"leanchecker rejects {m_}: {out_[-300:]}"]
     proof_ok = ok_props and not forb and len(discharged) == len(thms) and not extra["problems"]
     proof_problem = None
     if not proof_ok:
